@@ -197,6 +197,70 @@ def regrown_values(chk, b):
         enc, m2 = oracle(chk, inp, m, b.classes[ci], b.schema, ci)
         if isinstance(enc, bytes) and len(enc) <= len(first):
             chk.fail("bytes-did-not-grow-after-in-place-growth", inp, "before %s, after %s" % (first.hex(), enc.hex()))
+def none_items_stage(chk, drv, b):
+    """OUTSIDE the domain of the theorem (Props/C01.lean `none_item_not_roundtrip`): a `None` ITEM in a repeated wrapper field
+    (`List[Optional[int]]` admits it). The model says: written like the wrapped default (`tag 00`), read back as that default, so
+    the decoded message differs under `==`; `msgOkB` rejects the value. Correspondence only (bytes, decoded observation, `==`
+    both ways, domain verdict) — no oracle: the property does not speak about these values."""
+    if not drv:
+        return
+    rng = chk.rng
+    lines, wants = [], []
+    for v in b.values:
+        ci = v[1]
+        reps = [i for i, f in enumerate(b.schema[ci].fields) if f.wraps and f.repeated]
+        if not reps:
+            continue
+        i = rng.choice(reps)
+        f = b.schema[ci].fields[i]
+        items = [("N",) if rng.random() < 0.5 else bpgen.gen_scalar(rng, f.wraps) for _ in range(rng.choice([1, 2, 3]))]
+        items[rng.randrange(len(items))] = ("N",)
+        kw = dict(v[2])
+        kw[i] = ("l", items)
+        w = ("c", ci, kw)
+        try:
+            m = bpgen.to_py(w, b.classes)
+            enc = bytes(m)
+            m2 = b.classes[ci]().parse(enc)
+            eq = "%d %d" % (int(m == m2), int(m2 == m))
+            m3 = b.classes[ci]().parse(enc)
+            obs = bpgen.obs_msg(m3, b.schema, ci) + " | " + W.hexs(bytes(m3))
+        except Exception as e:
+            chk.count("none_item_skipped_" + type(e).__name__)
+            continue
+        t = bpgen.term(w)
+        chk.count("none_item_values")
+        chk.count("none_item_" + ("equal_after_roundtrip" if eq == "1 1" else "unequal_after_roundtrip"))
+        lines += ["DUMP %s %s" % (b.sid, t), "PARSE %s %d %s" % (b.sid, ci, W.hexs(enc)), "EQRT %s %s" % (b.sid, t),
+                  "MSGOK %s %s" % (b.sid, t)]
+        wants += [W.hexs(enc), obs, eq, "0"]
+    for ln, r, w in zip(lines, drv.ask(lines) if lines else [], wants):
+        if r != w:
+            chk.disagree("none-item", {"schema": b.schema_line(), "line": ln}, r, w)
+
+
+def none_item_witness(chk, drv):
+    """the witness of theorem `none_item_not_roundtrip`, on the real code: M(a=[None, 3]) -> 0a 00 0a 02 08 03 -> M(a=[0, 3])"""
+    schema = [bpgen.M("M0", [bpgen.F("a", 1, "message", wraps="int32", repeated=True),
+                             bpgen.F("s", 2, "message", wraps="string", repeated=True),
+                             bpgen.F("f", 3, "message", wraps="float", repeated=True)])]
+    cls = bpgen.build_bp(schema)[0]
+    m = cls(a=[None, 3])
+    enc = bytes(m)
+    m2 = cls().parse(enc)
+    got = (enc.hex(), list(m2.a), m == m2, m2 == m, bytes(m2).hex())
+    want = ("0a000a020803", [0, 3], False, False, "0a000a020803")
+    chk.count("none_item_witness_replayed")
+    if got != want:
+        chk.disagree("none-item-witness", {"value": "M(a=[None, 3])"}, repr(want), repr(got))
+    # … and the in-domain example of the same file: M(a=[5, 0, -1], s=["", "x"], f=[-0.0, 1.5])
+    m = cls(a=[5, 0, -1], s=["", "x"], f=[-0.0, 1.5])
+    enc = bytes(m)
+    m2 = cls().parse(enc)
+    got = (enc.hex(), m == m2, m2 == m, bytes(m2) == enc, str(m2.f[0]))
+    want = ("0a0208050a000a0b08ffffffffffffffffff01120012030a01781a001a050d0000c03f", True, True, True, "0.0")
+    if got != want:
+        chk.disagree("repeated-wrapper-example", {"value": "M(a=[5, 0, -1], s=['', 'x'], f=[-0.0, 1.5])"}, repr(want), repr(got))
 
 
 def one_batch(chk, drv, b):
@@ -216,6 +280,7 @@ def one_batch(chk, drv, b):
     regrown_values(chk, b)
     inplace_values(chk, drv, b)
     equality_stage(chk, drv, b)
+    none_items_stage(chk, drv, b)
     if drv and staged:
         lines = []
         for v, ci, enc, m2 in staged:
@@ -238,13 +303,16 @@ def one_batch(chk, drv, b):
 
 def run(chk, drv):
     quick = chk.tier == "quick"
-    chk.extra["rule"] = ("random well-formed schemas over all field kinds × cardinalities (oneof groups, proto3 optional, wrappers, Timestamp/Duration, "
+    chk.extra["rule"] = ("random well-formed schemas over all field kinds × cardinalities (oneof groups, proto3 optional, wrappers singular and repeated, Timestamp/Duration, "
                          "maps over every key/value kind, recursive messages); values built through the constructor, biased to boundaries (0, ±1, int32/int64 "
                          "limits, ±0.0, inf, NaN, empty and non-BMP strings, empty containers, default-valued oneof/optional members, extreme datetimes/timedeltas). "
                          "non-trivial = at least one constructor argument; distinct by (schema, value) line. "
                          "Every case is also classified by the driver as inside / outside the hypothesis `MsgOk` of theorem roundtrip_nested_partial "
-                         "(counts theorem_domain_inside / theorem_domain_outside): outside = a field kind the theorem names as missing")
+                         "(counts theorem_domain_inside / theorem_domain_outside): outside = a field kind the theorem names as missing (none since repeated wrapper "
+                         "fields joined the domain). Separate stage none_items: values with a None ITEM in a repeated wrapper field, which the theorem excludes "
+                         "(witness none_item_not_roundtrip, replayed on the real code on every run): correspondence only, no oracle")
     nb = 80 if quick else 1200
+    none_item_witness(chk, drv)
     for bi in range(nb):
         b = W.Batch(chk.rng, "r%d" % bi, 12)
         W.count_features(chk, b)
